@@ -164,7 +164,7 @@ func classify(check string, tx lexgen.Text, lx []lexgen.Lexeme) {
 
 func TestLexFaithful(t *testing.T) {
 	hx.Rule("lex_faithful", "lexeme sequences (1-30) from the reference grammar x drawn separators; expected kinds/values/one EOF/comments by construction; non-trivial = has a no-separator adjacency, a comment, an escape/doubled quote or a non-ASCII lexeme; distinct = (lexeme kinds, separator classes)")
-	lexCheck.Rapid(t, hx.N(6000, 400000), func(rt *rapid.T) LexCase {
+	lexCheck.Rapid(t, hx.N(120000, 1200000), func(rt *rapid.T) LexCase {
 		f := features()
 		lx := lexgen.GenLexemes(rt, f, 30)
 		tx := lexgen.Render(lx, lexgen.GenSeps(rt, f, lx, "s"))
@@ -220,7 +220,7 @@ var layoutCheck = hx.NewCheck("lex_layout_invariant", oracleLayout)
 
 func TestLexLayoutInvariant(t *testing.T) {
 	hx.Rule("lex_layout_invariant", "one lexeme list rendered twice with independent separators and keyword letter case; kinds and values (keywords case-folded, compound keyword tokens split) must agree; non-trivial/distinct as lex_faithful")
-	layoutCheck.Rapid(t, hx.N(4000, 300000), func(rt *rapid.T) LayoutCase {
+	layoutCheck.Rapid(t, hx.N(80000, 800000), func(rt *rapid.T) LayoutCase {
 		f := features()
 		lx := lexgen.GenLexemes(rt, f, 30)
 		a := lexgen.Render(lx, lexgen.GenSeps(rt, f, lx, "a"))
@@ -320,7 +320,7 @@ var parseLayoutCheck = hx.NewCheck("parse_layout_invariant", oracleParseLayout)
 
 func TestParseLayoutInvariant(t *testing.T) {
 	hx.Rule("parse_layout_invariant", "G-SQL statement tokens rendered once with single spaces and once with drawn separators (none where legal, newlines, tabs, line/block comments) and re-drawn keyword case; both must get the same verdict and the same tree (strings case-folded); non-trivial = the second layout has a comment or an abutting pair; distinct = separator classes + token count")
-	parseLayoutCheck.Rapid(t, hx.N(3000, 200000), func(rt *rapid.T) ParseLayoutCase {
+	parseLayoutCheck.Rapid(t, hx.N(60000, 600000), func(rt *rapid.T) ParseLayoutCase {
 		sf := sqlgen.AllFeatures()
 		g := sqlgen.New(rt, sf)
 		st := sqlgen.Statement(g)
